@@ -813,8 +813,50 @@ let handle_dial line scen ck connk perr rest =
   note_case (Printf.sprintf "DC-scenario%s-conn%s" scen connk) line;
   if not (List.mem got expected) then pfail line "glue-dialctx-returns-or-closes-once" (String.concat " or " expected)
 
+(* ---------------------------------------------------------------- the emulated bus (Emulator.v) *)
+let handle_emulator line toks =
+  match split_bars [] [] toks with
+  | [ ops_t; obs ] ->
+      let bad_err = ref None in
+      let ops =
+        lmap
+          (fun t ->
+            let arg = tail_from t 1 in
+            match t.[0] with
+            | 'r' | 'd' -> EConnect (z_of_int (int_of_string arg))
+            | 'x' -> EDisconnect (z_of_int (int_of_string arg))
+            | 't' -> (
+                match String.split_on_char ':' arg with
+                | [ who; fr; err ] ->
+                    if who = "-" && err = "1" then bad_err := Some t;
+                    ETransmit ((if who = "-" then None else Some (z_of_int (int_of_string who))), frame_of_str fr)
+                | _ -> failwith ("bad transmit " ^ t))
+            | _ -> failwith ("bad emulator op " ^ t))
+          ops_t
+      in
+      let b = emu_run [] ops in
+      let ntx = llen (List.filter (fun t -> t.[0] = 't') ops_t) in
+      note_case ~nontrivial:(ntx > 0) (Printf.sprintf "E-%dtransmits" (min ntx 6)) line;
+      (match !bad_err with
+       | Some t -> pfail line "emulator-transmit-succeeds" ("no error for " ^ t)
+       | None -> ());
+      List.iter
+        (fun o ->
+          let id, got = split_first '=' o in
+          let inbox = inbox_of (z_of_int (int_of_string id)) b in
+          let want =
+            lmap (fun (_, d) -> match receive16 d with Some ((f, _), _) -> frame_str f | None -> "undecodable") inbox
+          in
+          let want_s = if want = [] then "-" else String.concat "," want in
+          if want_s <> got then
+            pfail line "emulator-delivers-each-frame-once-to-every-connected-endpoint"
+              (Printf.sprintf "endpoint %s: %s" id want_s))
+        obs
+  | _ -> failwith ("bad E line: " ^ clip line)
+
 let handle line =
   match split_ws line with
+  | "E" :: toks -> handle_emulator line toks
   | "FC" :: toks -> handle_fileconn line toks
   | "UD" :: kind :: toks -> handle_udp line kind toks
   | "DC" :: scen :: ck :: connk :: perr :: "|" :: rest -> handle_dial line scen ck connk perr rest
